@@ -1418,3 +1418,32 @@ def rule_MOC(ctx):
     else:
         detail = "expected one fold loop and the two-way start"
     ctx.ob(okf, "c-finalize-folds-stack-from-the-top", where(t, f["line"]), detail)
+
+
+def rule_X0C(ctx):
+    """C twin of X0: blake3_xof_many of the dispatcher returns early for outblocks == 0 before it can reach an assembled
+    kernel that is not zero-safe (precondition derived from the object code by X0asm)"""
+    import r_asmsym
+    pre = r_asmsym.rule_X0asm(ctx)
+    unsafe_k = {k: v for k, v in pre.items() if not v[0]}
+    d = tu("c/blake3_dispatch.c")
+    f = need(d, "blake3_xof_many")
+    kernels = [c for c, g, l in calls_in(f["body"]) if isinstance(c[1], str) and c[1].startswith("blake3_xof_many_") and c[1] != "blake3_xof_many_portable"]
+    if not kernels:
+        ctx.ob(True, "c-xof-zero-blocks", where(d, f["line"]), "no xof_many kernel is called in this flavour")
+        return
+    needs = [k for k in unsafe_k if any(k.startswith(c[1] + ":") for c in kernels)]
+    if not needs:
+        ctx.ob(True, "c-xof-zero-blocks", where(d, f["line"]), "the assembled kernels return without storing for a zero count")
+        return
+    # an early `if (outblocks == 0) return;` at the top level, before the first statement containing a kernel call
+    guard = False
+    for s in f["body"]:
+        if any(True for c, g, l in calls_in([s]) if c in kernels):
+            break
+        if s[0] == "if":
+            c = r_cbudget_norm(s[1])
+            subs = [x for x in s if isinstance(x, list)]
+            if c in (("bin", "==", ("var", "outblocks"), ("int", 0)), ("un", "!", ("var", "outblocks"))) and subs and subs[0] and subs[0][0][0] == "return":
+                guard = True
+    ctx.ob(guard, "c-xof-zero-blocks", where(d, f["line"]), "%s ; blake3_xof_many returns early for outblocks == 0: %s" % (unsafe_k[needs[0]][1], guard))
